@@ -137,10 +137,21 @@ def gen_case(rng, collide=False):
     return d, rng.randint(1, 4)
 
 
+def fixed_cases():
+    r = lambda f, t, s_: dict(file=f, title=t, servings=s_, links=[])  # noqa
+    sub = lambda n, recs, subs=(): dict(name=n, readme=None, recipes=list(recs), subdirs=list(subs), assets=[])  # noqa
+    yield sub("root", [r("one.md", "One", 1)]), 1                                     # M = 1, a recipe for 1
+    yield sub("root", [r("soup.md", "Root soup", 2)], [sub("mains", [r("soup.md", "Main soup", 3)]), sub("starters", [r("soup.md", "Starter soup", None)])]), 3
+    yield sub("root", [r("big.md", "Big", 4), r("plain.md", "Plain", None)], [sub("x", [r("SOUP.MD", "Loud", 2), r("Pie.Md", "Pie", 1)])]), 4   # servings == M
+    yield sub("root", [r("twelve.md", "Party punch", 12), r("two.md", "Two", 2)]), 12
+    yield sub("root", [r("foo.md", "Foo", 2), r("foo.MD", "Twin", 2)]), 2          # recorded finding: one page for two files
+
+
 def oracle(run):
     rng = run.rng
-    for i in range(run.budget(25, 600)):
-        d, M = gen_case(rng, collide=(i == 0))
+    fixed = list(fixed_cases())
+    for i in range(run.budget(25, 600) + len(fixed)):
+        d, M = fixed[i] if i < len(fixed) else gen_case(rng, collide=(i == len(fixed)))
         run.case(("oracle", gen_site.tree_sexp(d), M), True, kind="site")
         seen = set()
         for sig, detail in check_site(d, M):
